@@ -156,4 +156,10 @@ def findDeclaredRx (isStr : Bool) (markup : List Nat) (isHtml : Bool) (searchEnt
   | some g => if g.isEmpty then none else some (lower (if isStr then g else asciiReplace g))   -- :727-730
   | none => none
 
+/-- `EncodingDetector(markup: str, …).encodings`: a str has no byte-order mark (dammit.py:655-657), the
+    declaration is looked for with the str flavour of the patterns (:714-717), and `_chardet_dammit`
+    returns None for str (:73). -/
+def detectorEncodingsStr (a : Args) (s : PStr) : List Name :=
+  detectorEncodings a none (findDeclaredRx true s a.isHtml) none
+
 end BS.EncodingIn.Rx
